@@ -11,6 +11,7 @@ import (
 func init() {
 	vs.RegisterHarness("VerifC11PriceToTickBands", VerifC11PriceToTickBands)
 	vs.RegisterHarness("VerifC11PriceToTickSamples", VerifC11PriceToTickSamples)
+	vs.RegisterHarness("VerifC11PriceToTickPow2", VerifC11PriceToTickPow2)
 }
 
 // c11BoundaryTicks: ticks around which a band of prices is placed (extremes of the uint64 price range, the unit
@@ -106,6 +107,31 @@ func VerifC11TickIsExact(price uint64, offsetTick uint64) bool {
 // boundary tick t of c11BoundaryTicks and the prices TickToPrice(t)-1, TickToPrice(t), TickToPrice(t)+1 (the places
 // where an off-by-one in the final tick selection shows), PriceToTick succeeds and returns the largest tick whose
 // X96 price does not exceed the price. This is sampling, not a proof (see "outside" in checks/C11.json).
+// VerifC11PriceToTickPow2: the same exactness check at every power-of-two boundary of the price (2^k-1, 2^k,
+// 2^k+1 for k = 0..63), where the constants of the most-significant-bit search decide; also monotone across
+// the boundary. Concrete evaluation of the real code through the engine (sampling, not a proof).
+func VerifC11PriceToTickPow2() {
+	for k := uint(0); k < 64; k++ {
+		base := uint64(1) << k
+		var prev uint64
+		havePrev := false
+		for d := uint64(0); d < 3; d++ {
+			price := base + d - 1
+			if price == 0 || (k == 63 && d == 2) {
+				continue
+			}
+			got, err := PriceToTick(price)
+			vs.Assert("pow2-sample-has-a-tick", err == nil)
+			vs.Assert("pow2-tick-is-largest-not-exceeding-price", err != nil || VerifC11TickIsExact(price, got))
+			if havePrev {
+				vs.Assert("pow2-monotone", got >= prev)
+			}
+			prev, havePrev = got, true
+		}
+	}
+	vs.Reach("pow2-checked", true)
+}
+
 func VerifC11PriceToTickSamples() {
 	_, err0 := PriceToTick(0)
 	vs.Assert("zero-price-refused", err0 != nil)
